@@ -98,6 +98,7 @@ class InterpBase:
     self.obj_ids = []
     self.seq = 0                 # logical time of monitor-relevant events on this path
     self.last_cond_check = 0     # when the waited-for condition (queue empty / full) was last tested
+    self.cond_checks = {}        # kind of wake-up condition ('content', 'stop') -> logical time it was last tested
     self.release_hooks = []      # callables(interp, lock) run whenever a lock is released (publication checks)
     self.call_log = []           # (callee short name, result) of contract calls that returned normally
 
